@@ -5,9 +5,10 @@ seeds="$1"; shift
 ids="${*:-$(/verif/harness/target/verif/vcheck list)}"
 home=/tmp/verif-soak-$$
 mkdir -p $home && cp -r /verif/corpus /verif/known_findings.json $home/
+cp /verif/harness/target/verif/vcheck $home/vcheck   # later rebuilds must not affect this run
 for s in $seeds; do
   for id in $ids; do
-    out=$(VERIF_HOME=$home VERIF_SEED=$s /verif/harness/target/verif/vcheck $id --tier ${TIER:-quick} 2>&1); rc=$?
+    out=$(VERIF_HOME=$home VERIF_SEED=$s $home/vcheck $id --tier ${TIER:-quick} 2>&1); rc=$?
     echo "seed=$s $id rc=$rc $(echo "$out" | tail -1)"
     if [ $rc -ne 0 ]; then echo "$out" | head -20; fi
   done
